@@ -265,8 +265,9 @@ on the sample language: single faults — an unknown asset class (`AttributeErro
 number (`ValueError` / `validation`), an entry-point id that is not a number (`ValueError` / `lookupError`); the Python
 does not raise — a `defenses` key that is not a defense (`unmodelled` / `validation`), an entry point for an unknown asset
 (`unmodelled` / `lookupError`); two faults in one entry, the hand model converts the key first — unknown class, bad value,
-unknown defense, each under a key that is not a number (… / `valueError`).  `k` is any key with `k.toInt? = none`. -/
-theorem old_loader_class_disagreements (k : Key) (hk : k.toInt? = none) :
+unknown defense, each under a key that is not a number (… / `valueError`).  `k` is any key with `k.toInt? = none` that is
+`keyPlain` (not a text CPython's `int` accepts although `String.toInt?` refuses it: those are `unmodelled`). -/
+theorem old_loader_class_disagreements (k : Key) (hk : k.toInt? = none) (hp : PyLeg.keyPlain k = true) :
     (∃ d ok e er, (OldWf clsFac.L true d ∧ DefsOkOf clsFac d ok) ∧
       updater_process_model clsFiles clsEnv (encOld true "m" d) clsFac = .error e ∧
       loadOld Legacy.Sample.lang ok d = .error er ∧ e = .py .attributeError ∧ er = .lookupError) ∧
@@ -293,8 +294,8 @@ theorem old_loader_class_disagreements (k : Key) (hk : k.toInt? = none) :
       loadOld Legacy.Sample.lang ok d = .error er ∧ e = .unmodelled ∧ er = .valueError) := by
   refine ⟨?_, ?_, ?_, ?_, ?_, ?_, ?_, ?_⟩
   · obtain ⟨a, b, c⟩ := old_class_unknown_asset_class; exact ⟨_, _, _, _, a, b, c, rfl, rfl⟩
-  · obtain ⟨a, b, c⟩ := old_class_member_not_int k hk; exact ⟨_, _, _, _, a, b, c, rfl, rfl⟩
-  · obtain ⟨a, b, c⟩ := old_class_entry_point_not_int k hk; exact ⟨_, _, _, _, a, b, c, rfl, rfl⟩
+  · obtain ⟨a, b, c⟩ := old_class_member_not_int k hk hp; exact ⟨_, _, _, _, a, b, c, rfl, rfl⟩
+  · obtain ⟨a, b, c⟩ := old_class_entry_point_not_int k hk hp; exact ⟨_, _, _, _, a, b, c, rfl, rfl⟩
   · obtain ⟨a, b, c⟩ := old_class_unknown_defense; exact ⟨_, _, _, _, a, b, c, rfl, rfl⟩
   · obtain ⟨a, b, c⟩ := old_class_unknown_entry_point; exact ⟨_, _, _, _, a, b, c, rfl, rfl⟩
   · obtain ⟨a, b, c⟩ := old_class_unknown_asset_class_bad_key k hk; exact ⟨_, _, _, _, a, b, c, rfl, rfl⟩
